@@ -237,6 +237,7 @@ SameValue(x, y) ==      \* x expected, y observed; numbers by value, TRUE/1 dist
          [] x.t = "err" -> x.c = y.c
          [] x.t = "date" -> x.y = y.y /\ x.mo = y.mo /\ x.d = y.d /\ x.ms = y.ms
          [] x.t = "opq" -> x.r = y.r            \* host objects: identity tag
+         [] x.t = "flt" -> x.r = y.r            \* a float the host handed in, passed through untouched: the same spelling
          [] OTHER -> FALSE
 
 RECURSIVE SameDeep(_, _)
